@@ -27,8 +27,10 @@
      Fetch o b     a FetchRequest for offset o with max_bytes b
      Deliver offs  the processor is called with the messages at these offsets
      StartFailed   the Deferred returned by start() fails with ConsumerFetchSizeTooSmall
-   At the maximum buffer size the start Deferred fails first and the collected messages are STILL handed to the processor
-   afterwards (errback in the except clause, delivery in the finally clause): modelled as it is.
+   At the maximum buffer size the start Deferred fails (errback in the except clause) and what was collected from that
+   answer is NOT handed over any more: _process_messages stops as soon as the start Deferred has fired
+   (consumer.py:1015-1021).  The private _fetch_offset was already advanced, which nothing can observe once the consumer
+   has failed; the model leaves g_off where it was.
    Outside this model: retry delays and attempt limits, offsets resolved by Offset/OffsetFetch requests, commits,
    stop/shutdown, asynchronous processors (all Model/Consumer.v). *)
 From AV Require Import Base.Util.
@@ -68,7 +70,7 @@ Definition gstep (maxbuf : option Z) (s : gstate) (e : gev) : gstate * list gout
            | TooSmallTail =>
                match grow (g_buf s) maxbuf with
                | Some b => (mkG fo b false, deliver dl ++ [Fetch fo b])
-               | None => (mkG fo (g_buf s) true, StartFailed :: deliver dl)
+               | None => (mkG (g_off s) (g_buf s) true, [StartFailed])
                end
            end
        end.
